@@ -89,6 +89,45 @@ def fetch(sp: spdriver.ServerProcess, view: str, sel: bytes, q: typing.Optional[
         return None, "oserror:%s" % type(e).__name__
 
 
+def bad_client(sp: spdriver.ServerProcess, kind: str) -> None:
+    """Clients that misbehave on the shared port; nothing is expected back, they only have
+    to be harmless for everybody else."""
+    try:
+        s = socket.create_connection(("127.0.0.1", sp.port), timeout=10)
+    except OSError:
+        return
+    try:
+        s.settimeout(10)
+        if kind == "garbage-after-tls-byte":
+            s.sendall(b"\x16\x03\x01\x00\x05hello, not a handshake")
+            try:
+                s.recv(100)
+            except OSError:
+                pass
+        elif kind == "tls-client-rejecting-certificate":
+            ctx = ssl.create_default_context()      # verifies: the self-signed certificate is refused
+            try:
+                ctx.wrap_socket(s, server_hostname="localhost").close()
+            except (ssl.SSLError, OSError):
+                pass
+        elif kind == "connect-and-close":
+            pass
+        elif kind == "half-request-then-reset":
+            s.sendall(b"/hot")
+            s.setsockopt(socket.SOL_SOCKET, socket.SO_LINGER, __import__("struct").pack("ii", 1, 0))
+        elif kind == "tls-hello-then-close":
+            s.sendall(b"\x16\x03\x01\x02\x00\x01\x00\x01\xfc\x03\x03")
+    finally:
+        try:
+            s.close()
+        except OSError:
+            pass
+
+
+BAD_KINDS = ["garbage-after-tls-byte", "tls-client-rejecting-certificate", "connect-and-close", "half-request-then-reset",
+             "tls-hello-then-close"]
+
+
 def children_states(pid: int) -> typing.List[typing.Tuple[int, str]]:
     out = []
     for n in os.listdir("/proc"):
@@ -160,8 +199,18 @@ def run_round(chk: Check, sc: Scratch, rd: int, servertype: str, nreq: int, yiel
         dt = threading.Thread(target=disturber, daemon=True)
         dt.start()
         t0 = time.monotonic()
+        nbad = max(4, nreq // 12)
+        bad_at = set(rng.sample(range(nreq), nbad))
+
+        def run_job(ij):
+            i, j = ij
+            if i in bad_at:
+                bad_client(sp, BAD_KINDS[i % len(BAD_KINDS)])
+            return fetch(sp, *j)
+
         with ThreadPoolExecutor(max_workers=INFLIGHT) as ex:
-            results = list(ex.map(lambda j: fetch(sp, *j), jobs))
+            results = list(ex.map(run_job, enumerate(jobs)))
+        chk.count("misbehaving_clients", nbad)
         stop.set()
         dt.join()
         dur = time.monotonic() - t0
@@ -174,7 +223,13 @@ def run_round(chk: Check, sc: Scratch, rd: int, servertype: str, nreq: int, yiel
                 chk.count("client_side_" + err.split(":")[0])
                 if err.startswith("timeout"):
                     continue
-                data = b"<connection failed: %s>" % err.encode()
+                # a reset before any byte arrived can come from the kernel (listen backlog of 5 with
+                # more connections in flight): ask again, alone; only a repeated failure is a verdict
+                data, err2 = fetch(sp, view, sel, q)
+                if err2 is not None:
+                    data = b"<connection failed twice: %s, %s>" % (err.encode(), err2.encode())
+                else:
+                    chk.count("client_side_failures_answered_on_retry")
             want = reference[key]
             got = validate.normalize_ts(data)
             if got != want:
@@ -205,17 +260,26 @@ def run_round(chk: Check, sc: Scratch, rd: int, servertype: str, nreq: int, yiel
         if zombies:
             chk.witness("C14/%s:zombie-workers" % servertype, {"round": rd, "zombies": zombies[:5]})
             return
+        leftover = []
+        for _ in range(20):
+            leftover = [m for m in spdriver.session_members(sp.sid) if m[0] != pid]
+            if not leftover:
+                break
+            time.sleep(0.5)
+        if leftover:
+            chk.witness("C14/%s:workers-outlive-their-connection" % servertype, {"round": rd, "processes": leftover[:6]})
+            return
         fd1 = nfds(pid)
         chk.count("descriptors_above_baseline_after_burst:%s" % servertype, max(0, fd1 - fd0))
         err = sp.stderr_text()
-        # tracebacks of *handled* errors go with an error reply (caught by the comparison above) and
-        # 'Exception ignored in' notes come from finalisers; what must never appear is an exception
-        # that reached the accept loop's handle_error, or an interpreter crash
-        if "Exception occurred during processing of request" in err or "Fatal Python error" in err:
-            chk.witness("C14/%s:exception-reached-accept-loop" % servertype, {"round": rd, "stderr": err[-900:]})
+        # Tracebacks on stderr are not a verdict: handled errors go with an error reply (caught by the
+        # comparison above), a failed TLS handshake of a misbehaving client is reported by the worker's
+        # own handle_error, finalisers add 'Exception ignored in' notes.  Only an interpreter crash is.
+        if "Fatal Python error" in err:
+            chk.witness("C14/%s:interpreter-crash" % servertype, {"round": rd, "stderr": err[-900:]})
             return
         if err.strip():
-            chk.count("rounds_with_stderr_noise")
+            chk.count("rounds_with_stderr_output")
         # what did the monitors see?
         overlaps = cache_overlaps(alog)
         for k, v in overlaps.items():
@@ -265,6 +329,76 @@ def cache_overlaps(alog: str) -> typing.Dict[str, int]:
             "cache_writes_within_5ms_of_foreign_write": ww, "workers_touching_caches": len({w for _, w, _, _ in opens})}
 
 
+def first_request_bursts(chk: Check, sc: Scratch, src_root: str, nbursts: int) -> None:
+    """'First requests after start-up': the lazily initialised module-level tables are in
+    their start-up state (None) and several workers hit them at once.  In process (threads
+    through the real process_request_thread), so that hundreds of start-ups can be tried."""
+    import sys as _sys
+    import io as _io
+    root = os.path.join(sc.path, "root-first")
+    shutil.copytree(src_root, root, symlinks=True)
+    site = driver.Site(root, handlers=driver.HANDLERS_FULL, overrides={("handlers.dir.DirHandler", "cachetime"): "1000"})
+    rng = chk.subrng("first")
+    combos = [(v, sel) for v in ("gopher", "gopherp$", "http", "gemini", "wap", "gophers") for sel in (b"/hot", b"/", b"/arch.zip/sub")]
+    ref = {}
+    for v, sel in combos:
+        driver.clean_server_files(root)
+        driver.reset_lazies()
+        req, tls = reqs.render(v, sel)
+        ref[(v, sel)] = validate.normalize_ts(site.request(req, tls=tls).data)
+    mon = getattr(_sys, "monitoring", None)
+    yielding = False
+    if mon is not None:
+        try:
+            mon.use_tool_id(mon.PROFILER_ID, "vf-yield-inproc")
+            lock = threading.Lock()
+
+            def on_line(code, lineno):
+                fn = code.co_filename
+                if "/pygopherd/handlers/" not in fn and not fn.endswith(("gopherentry.py", "fileext.py")):
+                    return mon.DISABLE
+                with lock:
+                    r = rng.random()
+                if r < 0.03:
+                    time.sleep(0.0005)
+
+            mon.register_callback(mon.PROFILER_ID, mon.events.LINE, on_line)
+            yielding = True
+        except ValueError:
+            pass
+    old_err = _sys.stderr
+    _sys.stderr = _io.StringIO()
+    _sys.setswitchinterval(1e-5)
+    try:
+        for b in range(nbursts):
+            driver.clean_server_files(root)
+            driver.reset_lazies()
+            __import__("re").purge()     # a fresh process has no compiled-pattern cache either
+            if yielding:
+                mon.set_events(mon.PROFILER_ID, mon.events.LINE if b % 30 == 29 else 0)
+            picks = [rng.choice(combos) for _ in range(8)]
+            site._escaped.clear()
+            replies = driver.concurrent_requests(site, [reqs.render(v, sel) for v, sel in picks], nthreads=8, aligned_start=True)
+            for (v, sel), rep in zip(picks, replies):
+                chk.count("first_request_burst_requests")
+                got = validate.normalize_ts(rep)
+                if got != ref[(v, sel)] or site._escaped:
+                    n = next((i for i, (x, y) in enumerate(zip(got, ref[(v, sel)])) if x != y), 0)
+                    chk.witness("C14/first-requests-after-startup:%s" % ("exception" if site._escaped else ("empty-reply" if not rep else "different-bytes")),
+                                {"burst": b, "view": v, "selector": sel, "got": got[max(0, n - 30):n + 100], "want": ref[(v, sel)][max(0, n - 30):n + 100],
+                                 "escaped": site._escaped[:1], "stderr": _sys.stderr.getvalue()[-500:]})
+                    return
+        chk.case(("first-request-bursts", nbursts), {"bursts": nbursts, "threads": 8, "yield_injection_every_30th_burst": yielding})
+    finally:
+        if yielding:
+            mon.set_events(mon.PROFILER_ID, 0)
+            mon.free_tool_id(mon.PROFILER_ID)
+        _sys.setswitchinterval(0.005)
+        _sys.stderr = old_err
+        site.close()
+        shutil.rmtree(root, ignore_errors=True)
+
+
 def take_reference(chk: Check, sc: Scratch, src_root: str) -> typing.Optional[typing.Dict[tuple, bytes]]:
     root = os.path.join(sc.path, "root-ref")
     shutil.copytree(src_root, root, symlinks=True)
@@ -308,7 +442,12 @@ def main() -> int:
     with Scratch("c14") as sc:
         src = sc.sub("src")
         build_tree(sc).materialize(src)
+        t0 = time.monotonic()
+        first_request_bursts(chk, sc, src, 150 if quick else 3000)
+        chk.count("phase_ms:first_request_bursts", int(1000 * (time.monotonic() - t0)))
+        t0 = time.monotonic()
         ref = take_reference(chk, sc, src)
+        chk.count("phase_ms:sequential_reference", int(1000 * (time.monotonic() - t0)))
         if ref is not None:
             rounds = []
             n = 6 if quick else 40
